@@ -157,6 +157,18 @@ def build_cases(ctx):
         tcall = {"type": one, "name": "Root"}
         calls = [tcall] if i % 3 else [{"defs": {"Unrelated": {"type": "object", "properties": {"u": {"type": "string"}}}}}, tcall]
         cases.append(Case("inlined:%d" % i, calls, SETTINGS6[i % 6] if i % 2 else {}, supported=False))
+    # histories over DIFFERENT documents: what an earlier call left in the space (shared default functions, uses_* flags, names)
+    # must still be rendered after a later, unrelated call; definitions renamed apart, both orders
+    from props import c16 as _c16
+    for i in range(40 if thorough else 8):
+        fs = "defaults" if i % 2 == 0 else sorted(gen.FEATURE_SETS)[i % len(gen.FEATURE_SETS)]
+        da = _c16.rename_doc(gen.gen_universe(rng, 1 + i % 3, gen.FEATURE_SETS[fs]), "Aa")
+        db = _c16.rename_doc(gen.gen_universe(rng, 1 + (i // 2) % 3, gen.FEATURE_SETS["defaults"]), "Bb")
+        if not da.get("definitions") or not db.get("definitions"): continue
+        calls = [{"defs": da["definitions"]}, {"defs": db["definitions"]}]
+        cases.append(Case("twodocs:%d" % i, calls if i % 4 < 2 else calls[::-1], SETTINGS6[i % 6] if i % 3 == 0 else {}, supported=False))
+    for i, (_, a, b) in enumerate(_c16.default_split_cases(rng, 12 if thorough else 4)):
+        cases.append(Case("twodefaults:%d" % i, [{"defs_list": a}, {"defs_list": b}], {}, supported=True))
     # recursive documents over every containment edge kind (C07's schema generator), and the shared corpus of awkward documents
     try:
         from props import c07
